@@ -411,6 +411,37 @@ func (s *Server) handleConn(ctx context.Context, conn *Conn, module *Module, pc 
 	return s.handleConnReceiver(module, crd, cwr, paths, opts, false, c, sessionChecksumSeed)
 }
 
+// subdirInModule verifies that the directory opened as subRoot lies below the
+// module directory. os.Root refuses symbolic links that lead out of the root,
+// but follows a link in the last position whose target ends in a slash to
+// wherever the next link points (Go 1.25), and a client that can upload to
+// the module can plant such links.
+func subdirInModule(modulePath, subdir string, subRoot *os.Root) error {
+	modReal, err := filepath.EvalSymlinks(modulePath)
+	if err != nil {
+		return err
+	}
+	subReal, err := filepath.EvalSymlinks(filepath.Join(modulePath, subdir))
+	if err != nil {
+		return err
+	}
+	if subReal != modReal && !strings.HasPrefix(subReal, strings.TrimSuffix(modReal, string(filepath.Separator))+string(filepath.Separator)) {
+		return fmt.Errorf("subdirectory %q leaves the module", subdir)
+	}
+	want, err := os.Stat(subReal)
+	if err != nil {
+		return err
+	}
+	got, err := subRoot.Stat(".")
+	if err != nil {
+		return err
+	}
+	if !os.SameFile(want, got) {
+		return fmt.Errorf("subdirectory %q changed while it was opened", subdir)
+	}
+	return nil
+}
+
 // handleConnReceiver is equivalent to rsync/main.c:do_server_recv
 func (s *Server) handleConnReceiver(module *Module, crd *rsyncwire.CountingReader, cwr *rsyncwire.CountingWriter, paths []string, opts *rsyncopts.Options, negotiate bool, c *rsyncwire.Conn, sessionChecksumSeed int32) (err error) {
 	var destPath string
@@ -498,6 +529,10 @@ func (s *Server) handleConnReceiver(module *Module, crd *rsyncwire.CountingReade
 				if err != nil {
 					return fmt.Errorf("OpenRoot(%s): %v", subdir, err)
 				}
+			}
+			if err := subdirInModule(module.Path, subdir, subRoot); err != nil {
+				subRoot.Close()
+				return err
 			}
 			if name := subRoot.Name(); filepath.IsAbs(name) {
 				rt.Dest = name
